@@ -62,6 +62,7 @@ type wscript struct {
 	emsg   string
 	mutate bool // the sender scribbles over a message right after sending it
 	mdReuse bool // the handler keeps changing the metadata map it handed to SetHeader / SendHeader / SetTrailer
+	preDone bool // cancel/deadline terminals: the context is already cancelled / past its deadline when the call is made
 	late   bool // cancel/deadline terminals: the handler does not watch its context, it returns only when told to after the client is done
 }
 
@@ -84,7 +85,7 @@ func (s wscript) String() string {
 		}
 	}
 	term := []string{"return-ok", fmt.Sprintf("return(%s,%q)", s.code, s.emsg), "client-cancel", "deadline"}[s.term]
-	return fmt.Sprintf("%s [%s] %s mutate=%v late-handler=%v md-reuse=%v", []string{"unary", "sstream", "cstream", "bidi"}[s.shape], strings.Join(p, " "), term, s.mutate, s.late, s.mdReuse)
+	return fmt.Sprintf("%s [%s] %s mutate=%v late-handler=%v md-reuse=%v pre-done=%v", []string{"unary", "sstream", "cstream", "bidi"}[s.shape], strings.Join(p, " "), term, s.mutate, s.late, s.mdReuse, s.preDone)
 }
 
 func genWrapScript(t *Tape) wscript {
@@ -126,6 +127,13 @@ func genWrapScript(t *Tape) wscript {
 	}
 	// cancel / deadline need a server->client synchronisation as the last exchange, so that the server has consumed
 	// everything the client sent ("the party that cancels does so after having received exactly j messages")
+	if (s.term == tCancel || s.term == tDeadline) && t.Flag(1, 6) {
+		// the call is made with a context that is already done: whatever the script says, the client must see the call
+		// end as cancelled / past its deadline (the handler, if it runs at all, sees a done context)
+		s.preDone = true
+		s.late = false
+		return s
+	}
 	if s.term == tCancel || s.term == tDeadline {
 		if s.shape == 0 {
 			// unary: the server itself triggers the client's cancel once it is waiting; nothing to add
@@ -264,7 +272,7 @@ func (sv *scriptServer) run(st srvStream, ctx context.Context, recv func() (stri
 	case tReturnErr:
 		return status.Error(sv.s.code, sv.s.emsg)
 	case tCancel, tDeadline:
-		if sv.s.shape == 0 && sv.s.term == tCancel {
+		if sv.s.shape == 0 && sv.s.term == tCancel && !sv.s.preDone {
 			sv.cancelClient() // the client "cancels while the server is working": ordered after everything before
 		}
 		if sv.s.late {
@@ -351,10 +359,17 @@ func runWrapClient(s wscript, client testproto.TestApiClient, yield func(string)
 	defer cancel()
 	if s.term == tDeadline {
 		var c2 context.CancelFunc
-		ctx, c2 = context.WithTimeout(ctx, 3*time.Second)
+		if s.preDone {
+			ctx, c2 = context.WithDeadline(ctx, time.Now().Add(-time.Second))
+		} else {
+			ctx, c2 = context.WithTimeout(ctx, 3*time.Second)
+		}
 		defer c2()
 	}
 	setCancel(cancel)
+	if s.preDone && s.term == tCancel {
+		cancel()
+	}
 	obs := func(format string, a ...any) { tr.client = append(tr.client, fmt.Sprintf(format, a...)) }
 	serverReturns := s.term == tReturnOK || s.term == tReturnErr
 	headerSynced := false
@@ -379,6 +394,11 @@ func runWrapClient(s wscript, client testproto.TestApiClient, yield func(string)
 		var h, t metadata.MD
 		req := &testproto.UnaryRequest{Msg: "unary-request"}
 		resp, err := client.Unary(ctx, req, grpc.Header(&h), grpc.Trailer(&t))
+		if s.preDone {
+			// only the outcome is specified for a call that starts with a done context
+			obs("terminal -> %s", errClass(err))
+			return
+		}
 		if err != nil {
 			obs("unary -> %s", errClass(err))
 		} else {
@@ -402,7 +422,11 @@ func runWrapClient(s wscript, client testproto.TestApiClient, yield func(string)
 	case 1:
 		st, err := client.ServerStream(ctx, &testproto.ServerStreamRequest{NumRes: 7})
 		if err != nil {
-			obs("open -> %s", errClass(err))
+			if s.preDone {
+				obs("terminal -> %s", errClass(err))
+			} else {
+				obs("open -> %s", errClass(err))
+			}
 			return
 		}
 		recv = func() (string, error) {
@@ -416,7 +440,11 @@ func runWrapClient(s wscript, client testproto.TestApiClient, yield func(string)
 	case 2:
 		st, err := client.ClientStream(ctx)
 		if err != nil {
-			obs("open -> %s", errClass(err))
+			if s.preDone {
+				obs("terminal -> %s", errClass(err))
+			} else {
+				obs("open -> %s", errClass(err))
+			}
 			return
 		}
 		send = func(m string) error {
@@ -438,7 +466,11 @@ func runWrapClient(s wscript, client testproto.TestApiClient, yield func(string)
 	case 3:
 		st, err := client.BidiStream(ctx)
 		if err != nil {
-			obs("open -> %s", errClass(err))
+			if s.preDone {
+				obs("terminal -> %s", errClass(err))
+			} else {
+				obs("open -> %s", errClass(err))
+			}
 			return
 		}
 		send = func(m string) error {
@@ -460,6 +492,18 @@ func runWrapClient(s wscript, client testproto.TestApiClient, yield func(string)
 		header, trailer = st.Header, st.Trailer
 	}
 	halfClosed := false
+	if s.preDone {
+		// the stream could be opened (real gRPC notices the done context asynchronously): its terminal outcome is what counts
+		yield("cli-term")
+		var err error
+		if finish != nil {
+			_, err = finish()
+		} else {
+			_, err = recv()
+		}
+		obs("terminal -> %s", errClass(err))
+		return
+	}
 	for i, r := range s.rounds {
 		switch r.kind {
 		case rC2S:
@@ -574,6 +618,10 @@ func wrapRun(w *World) {
 	same := func(a, b transcript) bool {
 		return strings.Join(a.client, "\n") == strings.Join(b.client, "\n") && strings.Join(a.server, "\n") == strings.Join(b.server, "\n") && strings.Join(a.hdrCompare, "\n") == strings.Join(b.hdrCompare, "\n")
 	}
+	if s.preDone {
+		// only the client's view is specified here; the handler may or may not run on either transport
+		pre.ref.server, pre.ref2.server = nil, nil
+	}
 	if !same(pre.ref, pre.ref2) {
 		// the reference itself is not deterministic for this script: discard, never report
 		w.Fault("reference-unstable")
@@ -644,7 +692,21 @@ func wrapRun(w *World) {
 			}
 		}
 	}
-	_ = diff("client observations", pre.ref.client, tr.client) || diff("messages received by the server", pre.ref.server, tr.server) || diff("header/trailer metadata", pre.ref.hdrCompare, tr.hdrCompare)
+	if s.preDone {
+		w.Fault("pre-done-context")
+		want := "terminal -> " + map[int]string{tCancel: "canceled", tDeadline: "deadline"}[s.term]
+		if len(tr.client) != 1 || tr.client[0] != want {
+			k := map[string]any{"what": "pre-done"}
+			for a, b := range key {
+				k[a] = b
+			}
+			w.Violate("transcript-differs", fmt.Sprintf("script %s: call made with a context that was already done\n  over real gRPC:   %v\n  over the wrapper: %v\n  expected: [%s]", s, pre.ref.client, tr.client, want), k)
+		}
+		// (the handler may or may not have been started; what it saw is not specified)
+		_ = diff("client observations", pre.ref.client, tr.client)
+	} else {
+		_ = diff("client observations", pre.ref.client, tr.client) || diff("messages received by the server", pre.ref.server, tr.server) || diff("header/trailer metadata", pre.ref.hdrCompare, tr.hdrCompare)
+	}
 
 	// fixed expectations from the statement: unknown method and mismatched shape
 	if err := conn.Invoke(context.Background(), "/sc.go.test.TestApi/Nope", &testproto.UnaryRequest{}, &testproto.UnaryResponse{}); status.Code(err) != codes.Unimplemented {
